@@ -18,6 +18,9 @@ Sections:
              and all blocking variants (sync, tokio blocking, tokio async).
 * `refill` – a blocked `blocking_send` is woken because a batch was taken but the queue is full
              again before it retries: it must keep waiting and return `Err(item)` not before `T`.
+* `extreme`– every blocking send variant with an extreme timeout (1 h, u64::MAX/2 s, u64::MAX s,
+             Duration::MAX) on a full queue whose parked receiver is released once the sender really
+             waits: Ok, no panic, item delivered exactly once, the channel still works afterwards.
 * `flood`  – 10 × capacity plain sends complete while the processor never returns / no receiver runs.
 * `conc`   – 2–8 sender threads + a sampler thread + a real receiver thread that is stalled and
              released; every sender (after each op) and the sampler assert the bound through the
@@ -919,6 +922,169 @@ mod threads {
         r.nontrivial(&("flood-none", cap));
     }
 
+    // ---- extreme timeouts ----
+
+    #[derive(Clone, Copy, Debug, PartialEq, Eq, Hash)]
+    pub enum Tmo {
+        Hour,
+        HalfU64Secs,
+        U64Secs,
+        Max,
+    }
+
+    impl Tmo {
+        pub const ALL: [Tmo; 4] = [Tmo::Hour, Tmo::HalfU64Secs, Tmo::U64Secs, Tmo::Max];
+
+        pub fn dur(self) -> Duration {
+            match self {
+                Tmo::Hour => Duration::from_secs(3600),
+                Tmo::HalfU64Secs => Duration::from_secs(u64::MAX / 2),
+                Tmo::U64Secs => Duration::from_secs(u64::MAX),
+                Tmo::Max => Duration::MAX,
+            }
+        }
+
+        pub fn class(self) -> &'static str {
+            match self {
+                Tmo::Hour => "1h",
+                Tmo::HalfU64Secs => "u64max/2-secs",
+                Tmo::U64Secs => "u64max-secs",
+                Tmo::Max => "Duration::MAX",
+            }
+        }
+
+        pub fn from_class(c: &str) -> Tmo {
+            Tmo::ALL.into_iter().find(|t| t.class() == c).unwrap_or(Tmo::Max)
+        }
+    }
+
+    const ITEM: u64 = 999;
+
+    /// A blocking send with an extreme timeout on a full queue whose receiver is parked on a gate
+    /// that the monitor opens once the sender really waits: the send must complete with Ok, the
+    /// item must be delivered exactly once and the channel must still work afterwards.
+    pub fn extreme_case(r: &mut Report, cap: usize, kind: BlockKind, tmo: Tmo, rk: RecvKind) {
+        r.eval();
+        let case = json!({"section": "extreme", "capacity": cap, "blocking": kind.name(), "timeout": tmo.class(), "receiver": rk.name()});
+        let t = tmo.dur();
+        let (sender, receiver) = bounded::<Chan>(cap);
+        let sender = Arc::new(sender);
+        let delivered: Delivered = Arc::new(Mutex::new(Vec::new()));
+        let gate = Gate::new(false);
+        let handle = start_receiver(rk, receiver, delivered.clone(), gate.clone());
+        sender.send(1);
+        if !gate.wait_arrivals(1, WATCHDOG) {
+            r.inconclusive("extreme: the processor never reached the gate");
+            gate.open();
+            return;
+        }
+        for k in 0..cap as u64 {
+            sender.send(100 + k);
+        }
+        type CallOut = Result<Result<(), Option<u64>>, String>;
+        let done: Done<CallOut> = Done::new();
+        {
+            let (d2, s2) = (done.clone(), sender.clone());
+            let _ = thread::Builder::new().name("c09_extreme_sender".into()).spawn(move || {
+                let res = catch(|| kind.call(&s2, ITEM, t).map_err(|e| e.into_retryable()));
+                d2.set(res);
+            });
+        }
+        // wait until the sender really waits on the full queue (its empty-watcher is registered)
+        let start = Instant::now();
+        let mut out: Option<CallOut> = None;
+        let mut waited = false;
+        while start.elapsed() < Duration::from_secs(10) {
+            if sender.verif_snapshot().on_take >= 1 {
+                waited = true;
+                break;
+            }
+            out = done.wait(Duration::from_millis(1));
+            if out.is_some() {
+                break;
+            }
+        }
+        if waited {
+            thread::sleep(Duration::from_millis(40));
+            r.observe("extreme:sender-was-blocked-when-the-gate-opened", 1);
+        }
+        gate.open();
+        let out = match out.or_else(|| done.wait(WATCHDOG)) {
+            Some(o) => o,
+            None => {
+                r.inconclusive(format!("extreme: {} with timeout {} did not return within the watchdog after the gate was opened", kind.name(), tmo.class()));
+                return;
+            }
+        };
+        r.observe(&format!("extreme:{}:timeout={}", kind.name(), tmo.class()), 1);
+        r.nontrivial(&("extreme", cap, kind, tmo, rk));
+        // later operations on the same channel still work
+        let s2 = sender.clone();
+        let later = catch(move || {
+            let f1 = emit_batcher::sync::blocking_flush(&s2, Duration::from_secs(20));
+            if !f1 {
+                return (false, false);
+            }
+            s2.send(7777);
+            let _ = s2.try_send(7778);
+            let _ = s2.verif_snapshot();
+            let _ = metrics(&s2.metric_source());
+            (true, emit_batcher::sync::blocking_flush(&s2, Duration::from_secs(20)))
+        });
+        drop(sender);
+        let joined = join_bounded(handle, WATCHDOG);
+        let all: Vec<u64> = delivered.lock().unwrap().iter().flatten().copied().collect();
+        let tc = format!("timeout={}", tmo.class());
+        match out {
+            Err(m) => {
+                r.violation(
+                    &format!("C09:{}:panic:{}", kind.name(), tc),
+                    &format!("{} panicked with timeout {} while waiting on a full queue: {}", kind.name(), tmo.class(), m),
+                    case.clone(),
+                );
+            }
+            Ok(Err(back)) => {
+                r.violation(
+                    &format!("C09:{}:gave-up-before-timeout:{}", kind.name(), tc),
+                    &format!("{} with timeout {} returned Err({:?}) although the queue was drained long before the timeout", kind.name(), tmo.class(), back),
+                    case.clone(),
+                );
+            }
+            Ok(Ok(())) => {
+                r.observe("extreme:send-completed-ok", 1);
+                let n = all.iter().filter(|x| **x == ITEM).count();
+                if joined && n != 1 {
+                    r.violation(
+                        &format!("C09:{}:item-delivered-{}-times:{}", kind.name(), if n == 0 { "zero" } else { "several" }, tc),
+                        &format!("{} with timeout {} returned Ok but the item reached the processor {} times", kind.name(), tmo.class(), n),
+                        case.clone(),
+                    );
+                }
+            }
+        }
+        match later {
+            Err(m) => r.violation(
+                &format!("C09:{}:channel-unusable-after:{}", kind.name(), tc),
+                &format!("after {} with timeout {} a later operation on the channel panicked: {}", kind.name(), tmo.class(), m),
+                case.clone(),
+            ),
+            Ok((true, true)) => {
+                r.observe("extreme:later-operations-worked", 1);
+                if joined && !all.contains(&7777) {
+                    r.violation(
+                        &format!("C09:{}:later-send-lost:{}", kind.name(), tc),
+                        "an item sent after the extreme-timeout call (into a flushed, empty queue) never reached the processor",
+                        case.clone(),
+                    );
+                }
+            }
+            Ok(_) => r.inconclusive("extreme: a 20 s flush after the call returned false; later-operation checks skipped"),
+        }
+        if !joined {
+            r.inconclusive(format!("extreme: {} receiver did not terminate within the watchdog", rk.name()));
+        }
+    }
+
     // ---- concurrent section ----
 
     #[derive(Default)]
@@ -1194,6 +1360,16 @@ fn main() {
                 }
             }
             #[cfg(not(miri))]
+            "extreme" => {
+                emit_batcher::verif::set_delay_divisor(1000);
+                let tmo = threads::Tmo::from_class(case.get("timeout").and_then(|v| v.as_str()).unwrap_or(""));
+                for kind in BlockKind::all() {
+                    for rk in threads::RecvKind::all() {
+                        threads::extreme_case(&mut r, cap, kind, tmo, rk);
+                    }
+                }
+            }
+            #[cfg(not(miri))]
             "refill" => {
                 for k in 0..4 {
                     threads::refill_case(&mut r, cseed, idx + k, cap);
@@ -1256,6 +1432,24 @@ fn main() {
             par_cases(&mut r, &args, cells.len() as u64, |i, r| {
                 let (cap, kind, rk) = cells[i as usize];
                 threads::stall_thread(r, cap, Duration::from_millis(5), kind, rk);
+            });
+        }
+        if want("extreme") {
+            let ecaps: Vec<usize> = if args.thorough() { vec![1, 2, 3, 8, 64] } else { vec![1, 2, 8] };
+            let mut cells = Vec::new();
+            for &cap in &ecaps {
+                for kind in BlockKind::all() {
+                    for tmo in threads::Tmo::ALL {
+                        for rk in threads::RecvKind::all() {
+                            cells.push((cap, kind, tmo, rk));
+                        }
+                    }
+                }
+            }
+            let cells = &cells;
+            par_cases(&mut r, &args, cells.len() as u64, |i, r| {
+                let (cap, kind, tmo, rk) = cells[i as usize];
+                threads::extreme_case(r, cap, kind, tmo, rk);
             });
         }
         if want("flood") {
